@@ -215,6 +215,10 @@ def main(argv=None):
         for v in r.get("violations", []):
             viols.append((c, v))
 
+    # generated configurations without a convergent coupling are skipped; too many of them means the workload is not what it claims
+    nskip = monitors.get("cases_skipped_no_convergent_coupling", 0)
+    if nskip > max(2, 0.05 * len(cases)):
+        inconclusive.append("%d of %d cases had no convergent aerostructural coupling" % (nskip, len(cases)))
     # required observations: a monitor/family the property depends on that was never reached => inconclusive
     if not replay:
         for name in getattr(mod, "REQUIRED_FAMILIES", []):
